@@ -51,6 +51,16 @@ def _segments(case):
             tgt = progs.resolve_fn(editions[-1][0], ref) if progs.find(editions[-1][0], ref)["k"] != "var" else progs.find(editions[-1][0], ref)
             edit = dict(edit, kind="var" if tgt["k"] == "var" else "lit", target=tgt["name"])
         p2, info = progs.apply_edit(editions[-1][0], edit, "e%d" % (i + 1))
+        if not info["applied"] and edit["kind"] in progs.EDIT_KINDS:
+            # the drawn kind has no site in this program: take the next kind (in the fixed order) that has one
+            k0 = progs.EDIT_KINDS.index(edit["kind"])
+            for j in range(1, len(progs.EDIT_KINDS)):
+                alt = progs.EDIT_KINDS[(k0 + j) % len(progs.EDIT_KINDS)]
+                if alt == "follow":
+                    continue
+                p2, info = progs.apply_edit(editions[-1][0], dict(edit, kind=alt), "e%d" % (i + 1))
+                if info["applied"]:
+                    break
         if not info["applied"]:
             skipped += 1
             continue
@@ -154,7 +164,7 @@ def execute(case, scratch):
         out.nontrivial = changed_memoized and bool(applied)
         out.excluded = excluded + sum(1 for e in editions if e[1].get("aliased_restart"))
         out.labels = sorted(set(out.labels) | {"edit:" + a["kind"] for a in applied} | {"delivery:" + a["delivery"] for a in applied}
-                            | {"feat:" + f for f in progs.features(p0)} | {"pres:" + case.get("pres", "direct")}
+                            | {"feat:" + f for f in progs.features(p0)} | {"pres:" + case.get("pres", "direct")} | ({"family:value-heavy"} if all(h["edit"]["kind"] in ("var", "varcopy") for h in case["history"]) and len([d for d in p0["defs"] if d["k"] == "var"]) >= 3 else set())
                             | ({"changed-memoized-root"} if changed_memoized else set()) | ({"edits-skipped"} if skipped else set()))
         out.render = {"program": {k: progs.render_files(p0)[k] for k in progs.render_files(p0) if not k.endswith("__init__.py")},
                       "history": [(a["kind"], a.get("target"), a.get("delivery")) for a in applied], "pres": case.get("pres")}
@@ -178,16 +188,24 @@ def strategy(thorough):
         ed, st.sampled_from(["addglob", "retarget"]), ed, st.sampled_from(["inproc", "inproc", "restart"]),
         st.sampled_from(["inproc", "inproc", "restart"]),
         st.lists(st.builds(lambda e, dl: {"edit": e, "delivery": dl}, ed, st.sampled_from(["restart", "inproc"])), max_size=1))
-    hist = st.one_of(hist, hist, pair)
-    return st.builds(lambda p, h, pres: {"program": p, "history": h, "pres": pres, "args": [1, 2]},
-                     progs.program_strategy(max_fns=7 if thorough else 5), hist,
-                     st.sampled_from(["direct", "direct", "partial", "force_local"]))
+    hist = st.integers(0, 2).flatmap(lambda i: pair if i == 0 else hist)
+    pres = st.sampled_from(["direct", "direct", "partial", "force_local"])
+    general = st.builds(lambda p, h, pres: {"program": p, "history": h, "pres": pres, "args": [1, 2]},
+                        progs.program_strategy(max_fns=7 if thorough else 5), hist, pres)
+    # value-heavy programs: several variables holding few distinct values, all read by the root; the history gives
+    # variables the values other variables hold (versions must differ although every single value was seen before)
+    vhist = st.lists(st.builds(lambda e, k, dl: {"edit": dict(e, kind=k), "delivery": dl}, ed, st.sampled_from(["varcopy", "varcopy", "var"]),
+                               st.sampled_from(["restart", "inproc"])), min_size=1, max_size=3)
+    heavy = st.builds(lambda p, h, pres: {"program": p, "history": h, "pres": pres, "args": [1, 2]},
+                      progs.program_strategy(max_fns=3, value_heavy=True, allow_hidden=False), vhist, pres)
+    # (one_of de-duplicates identical branches, so the 1:4 mix is drawn explicitly)
+    return st.integers(0, 4).flatmap(lambda i: heavy if i == 0 else general)
 
 
 def run_shard(ctx):
     stats = core.Stats()
     thorough = ctx.tier == "thorough"
-    core.hyp_search(strategy(thorough), lambda c: execute(c, ctx.scratch), stats, max_examples=250 if thorough else 40,
+    core.hyp_search(strategy(thorough), lambda c: execute(c, ctx.scratch), stats, max_examples=300 if thorough else 70,
                     seed=core.hash64(ctx.seed, ID, ctx.shard), findings=ctx.findings, shrink=True,
                     deadline_s=(ctx.deadline - time.time()) if ctx.deadline else None)
     return stats
